@@ -203,6 +203,11 @@ def run(ck, F, tier):
     rule_effects(ck, F)
     nh = rule_denylist(ck, F)
     rule_types(ck, F)
+    # "a pure function of the options and the bytes supplied": the only condition of the source that ends a picture early and still succeeds is end of data
+    # (C15's rule EK); any other transient I/O condition must fail the call, which then changes nothing (C05), so where a source pauses cannot show in the output
+    from . import c15
+    from ..report import Scoped
+    c15.eof_classification(Scoped(ck, 'C15.'), F)
     ck.floor('HashMap call sites screened', nh, 5)
     # "a pure function of ... the sequence of bytes supplied": the only input channel is std::io::Read, whose `read` may split the same
     # byte sequence differently from call to call (sockets, pipes). The result is independent of that splitting only if the source is
